@@ -431,3 +431,29 @@ Proof.
   unfold order_pinned. cbn [reset_events map fold_left pstep fst snd]. rewrite fold_credits. cbn [fold_left pstep fst snd].
   pose proof (Nat.mul_le_mono_l _ _ K (reductions_le col e Hwf)). f_equal. lia.
 Qed.
+
+Lemma credits_sum_app : forall l1 l2,
+  fold_right (fun e a => match e with PCredit v => v + a | _ => a end) 0 (l1 ++ l2) =
+  fold_right (fun e a => match e with PCredit v => v + a | _ => a end) 0 l1 +
+  fold_right (fun e a => match e with PCredit v => v + a | _ => a end) 0 l2.
+Proof. induction l1 as [|e l1 IH]; intros l2; cbn; [reflexivity|]. rewrite IH. destruct e; lia. Qed.
+
+(* bounds and monotonicity with the completion top-up (current code) *)
+Lemma progress_bounds_topup_lemma : forall K col e d0 t0, wf e = true -> d0 <= t0 ->
+  Forall (fun s => fst s <= snd s) (pstates (d0, t0) (eval_events_topup K col e)) /\
+  mono_done (pstates (0, K * total_booleans e)
+               (repeat (PCredit 1) (K * reductions col e) ++ [PCredit (K * total_booleans e - K * reductions col e)])).
+Proof.
+  intros K col e d0 t0 Hwf Hle.
+  assert (Hall : Forall (fun e => match e with PCredit _ => True | _ => False end)
+                   (repeat (PCredit 1) (K * reductions col e) ++ [PCredit (K * total_booleans e - K * reductions col e)])).
+  { apply Forall_app. split; [apply repeat_credit_all | repeat constructor]. }
+  split.
+  - unfold eval_events_topup, eval_events, order_pinned. rewrite <- app_assoc.
+    cbn [reset_events map app pstates pstep fst snd].
+    repeat (constructor; [cbn; lia|]).
+    apply pstates_bound; [|exact Hall].
+    rewrite credits_sum_app, credits_sum_repeat. cbn [fst snd fold_right].
+    pose proof (Nat.mul_le_mono_l _ _ K (reductions_le col e Hwf)). lia.
+  - apply pstates_mono. exact Hall.
+Qed.
